@@ -5,81 +5,91 @@ ROOT = os.path.dirname(os.path.abspath(__file__))
 TECH = "contract-based deductive verification: AST->VC symbolic execution of the real functions + z3 (cvc5 cross-check in thorough)"
 TRUST = "Trusted: pvc symbolic executor (Python-subset semantics, library models listed in the evidence), z3. "
 CLAIMED = {
-    "C03": dict(category="proof", design_ref="DESIGN.md section 5/C03",
+    "C03": dict(category="proof", design_ref="DESIGN.md section 3 (C03), sections 5-6",
         text="Deductive: HandlerCollection.proceed is proved for ANY number of pending (selector, accumulator) pairs against a closed-form loop invariant (next pairs, forks, registrations); fits_selector, register, fork, build, proceed.__enter__/__exit__ are under contract; the stack-step lemma connects the contract to the embedding count.",
         note=TRUST + "fits_selector/register are used by proceed through their contracts; fork of an opaque accumulator is an uninterpreted function of the history; ContextVar token semantics assumed. fits_selector, register and build are proved on concrete spines (bounded, labelled).",
         technique=TECH),
-    "C05": dict(category="proof", design_ref="DESIGN.md section 5/C05",
-        text="Deductive: StackedTransforms/SyncedStackedTransforms push/pop/get/_apply are proved to preserve the multiset invariant from an arbitrary well-formed state (hence after every history), TransformSet memo, _tooler/_untooler/autotool, BaseOverlay.__enter__/__exit__ (any number of handlers) and Probe enter/exit are under contract. Two genuine defects are recorded as known findings (non-LIFO exit, refused selector leaks tooling).",
+    "C05": dict(category="proof", design_ref="DESIGN.md section 3 (C05), sections 5-6",
+        text="Deductive: StackedTransforms/SyncedStackedTransforms push/pop/get/_apply are proved to preserve the multiset invariant from an arbitrary well-formed state (hence after every history), TransformSet memo, _tooler/_untooler/autotool, BaseOverlay.__enter__/__exit__ (any number of handlers) and Probe enter/exit are under contract.",
         note=TRUST + "ContextVar token semantics, codefind registry and transform() are used through ghost events; capture tuples of length <= 2 over 3 elements per operation.",
         technique=TECH),
-    "C07": dict(category="proof", design_ref="DESIGN.md section 5/C07",
+    "C07": dict(category="proof", design_ref="DESIGN.md section 3 (C07), sections 5-6",
         text="Deductive: Total.{__init__,accumulator_for,log,leaves,close}, Capture.accum, fork/build, proceed (template fork, close_at_exit, unbounded), Interactor.register/exit (exit: any number of accumulators) and proceed.__exit__ are under contract.",
         note=TRUST + "Total.close/leaves and build on concrete accumulator trees (<=2 leaves, depth<=3: bounded, labelled).",
         technique=TECH),
-    "C09": dict(category="proof", design_ref="DESIGN.md section 5/C09",
+    "C09": dict(category="proof", design_ref="DESIGN.md section 3 (C09), sections 5-6",
         text="Deductive: proceed.__enter__/__exit__ contracts (restore on LIFO exit, interactor.exit exactly once, exceptions not swallowed); the non-LIFO clause demanded by the property fails on the real code and is recorded as a known finding with a native replay.",
         note=TRUST + "ContextVar token semantics assumed; generator suspension itself is CPython semantics (the segment obligation on the transformer output is part of the transformer contracts).",
         technique=TECH),
-    "C12": dict(category="proof", design_ref="DESIGN.md section 5/C12",
+    "C12": dict(category="proof", design_ref="DESIGN.md section 3 (C12), sections 5-6",
         text="Deductive: obligations generated from the real bodies of Range/every/between/lt/gt/lte/gte/throttle, Selector.check_captures (two nested loop invariants, any number of constraints and values) and the BaseAccumulator filter wrapper/trigger/intercept path are discharged by z3 for all integers and all capture dictionaries.",
         note=TRUST + "match functions assumed pure predicates; handler callbacks opaque and deterministic. Bounded stand-in (labelled) only used when the loop structure of check_captures changes.",
         technique=TECH),
-    "C17": dict(category="proof", design_ref="DESIGN.md section 5/C17",
+    "C17": dict(category="proof", design_ref="DESIGN.md section 3 (C17), sections 5-6",
         text="Deductive: Probe.__init__/_enter/_exit/_emit/_make_rule and giving.SourceProxy.__init__/_push/__enter__/__exit__ (interpreted from the installed giving/gvn.py) are executed symbolically through a full life-cycle history; _push/__exit__ fan-out proved for any number of observers.",
         note=TRUST + "reactivex operators (reductions publish one value on completion, subscribe calls make once) are assumed; autotool used through its contract.",
         technique=TECH),
-    "C01": dict(category="proof", design_ref="DESIGN.md section 5/C01",
-        text="Deductive over program SCHEMAS: every visitor of PteraTransformer (and NodeTransformer.generic_visit from the stdlib source) is executed from its real body on ast nodes with opaque sub-terms, for every capture subset; obligations: erase(visit(s)) ~ s under the normaliser R1-R9 with side conditions, visitor does not raise, output compiles; interact returns the original value when nothing intercepts (unbounded in the number of handlers). Nine genuine defects are recorded as known findings, three were fixed.",
-        note=TRUST + "Trusted: the rewrite rules R1-R9 of specs/pyeffects.py (validated natively by replay/known cases), induction hypothesis on sub-terms (visit(hole)), CPython try/finally/with semantics. transform() orchestration (inspect/compile/exec) is out of reach.",
+    "C01": dict(category="proof", design_ref="DESIGN.md section 3 (C01), sections 5-6",
+        text="Deductive over program SCHEMAS: every visitor of PteraTransformer (and NodeTransformer.generic_visit from the stdlib source) is executed from its real body on ast nodes with opaque sub-terms, for every capture subset; obligations: erase(visit(s)) ~ s under the normaliser R1-R15 with side conditions, visitor does not raise, output compiles; interact returns the original value when nothing intercepts (unbounded in the number of handlers).",
+        note=TRUST + "Trusted: the rewrite rules R1-R15 of specs/pyeffects.py (validated natively by the scenario corpus and the 27-program corpus), induction hypothesis on sub-terms (visit(hole)), CPython try/finally/with semantics. transform() is executed from its real body on fourteen sample objects (bounded, labelled) with inspect/compile/exec run natively.",
         technique=TECH),
-    "C02": dict(category="proof", design_ref="DESIGN.md section 5/C02",
-        text="Deductive: events(visit(s)) = the instrumented bindings of s in order with the bound value, for every binding form and capture subset (schemas), + interact/WorkingFrame/Immediate.log/trigger/_call_with_snapshot/Capture contracts (unbounded handlers), Probe._emit and SourceProxy._push fan-out (any number of observers). Six genuine gaps are known findings, one fixed.",
+    "C02": dict(category="proof", design_ref="DESIGN.md section 3 (C02), sections 5-6",
+        text="Deductive: events(visit(s)) = the instrumented bindings of s in order with the bound value, for every binding form and capture subset (schemas), + interact/WorkingFrame/Immediate.log/trigger/_call_with_snapshot/Capture contracts (unbounded handlers), Probe._emit and SourceProxy._push fan-out (any number of observers).",
         note=TRUST + "binding forms are enumerated per syntactic form with opaque sub-terms; reduced capture-subset exploration for the root function schema (all/none/singletons/co-singletons).",
         technique=TECH),
-    "C04": dict(category="proof", design_ref="DESIGN.md section 5/C04",
+    "C04": dict(category="proof", design_ref="DESIGN.md section 3 (C04), sections 5-6",
         text="Deductive: interact (last non-ABSENT intercept in registration order wins, declining leaves the value, OverrideException for non-overridable bindings, log receives the substituted value) for any number of handlers; BaseAccumulator.intercept (tentative capture exposed then removed); schema obligations: the right-hand side occurs once as the 4th argument of the interact whose result is stored; overlay activation order (plus appends).",
         note=TRUST + "reactivex pipeline of OverridableProbe assumed synchronous; override functions are opaque deterministic callbacks.",
         technique=TECH),
-    "C06": dict(category="proof", design_ref="DESIGN.md section 5/C06",
-        text="Deductive over schemas: function wrapper (with proceed / try / except BaseException as #error / finally #exit, #enter first), loop brackets (#loop_v / #endloop_v in try/finally for every target variable), return/yield rewriting (#value, #yield, #receive with tags), for every capture subset. #value on fall-through is a known finding.",
+    "C06": dict(category="proof", design_ref="DESIGN.md section 3 (C06), sections 5-6",
+        text="Deductive over schemas: function wrapper (with proceed / try / except BaseException as #error / finally #exit, #enter first), loop brackets (#loop_v / #endloop_v in try/finally for every target variable), return/yield rewriting (#value, #yield, #receive with tags), for every capture subset.",
         note=TRUST + "CPython semantics of try/finally and generator finalisation are trusted: the bracket lemma follows from the proved output structure.",
         technique=TECH),
-    "C10": dict(category="proof", design_ref="DESIGN.md section 5/C10",
+    "C10": dict(category="proof", design_ref="DESIGN.md section 3 (C10), sections 5-6",
         text="Deductive: ExternalVariableCollector executed from its real body (NodeVisitor from the stdlib source) on every placement of a binding or read, compared with CPython's symtable; Call.problems/verify for ANY capture name (symbolic string); fits_selector; _tooler TypeError; autotool.",
         note=TRUST + "CPython symtable is the scoping oracle; the info table assembly inside transform() is assumed (keys = used|assigned). Placement programs are enumerated per form.",
         technique=TECH),
-    "C11": dict(category="proof", design_ref="DESIGN.md section 5/C11",
+    "C11": dict(category="proof", design_ref="DESIGN.md section 3 (C11), sections 5-6",
         text="Deductive: match_tag/check_element (iff membership), tag-set algebra (commutative/associative/idempotent), get_tags, _TagFactory interning, should_instrument (per binding), annotation carried by each event (schemas), fits_selector generic branch, Call.problems tag branches.",
         note=TRUST + "tag alphabet of 3 names (the code never inspects names); _ann on the listed string forms with re.split executed natively (bounded, labelled).",
         technique=TECH),
-    "C13": dict(category="proof", design_ref="DESIGN.md section 5/C13",
-        text="Deductive: _resolve (method branch: underlying function through __wrapped__, receiver capture named after the first parameter, identity constraint for ANY receiver value incl. unhashable / custom __eq__), _dig, check_captures, InternedMC interning. The two receiver defects were fixed.",
+    "C13": dict(category="proof", design_ref="DESIGN.md section 3 (C13), sections 5-6",
+        text="Deductive: _resolve (method branch: underlying function through __wrapped__, receiver capture named after the first parameter, identity constraint for ANY receiver value incl. unhashable / custom __eq__), _dig, check_captures, InternedMC interning.",
         note=TRUST + "inspect.getfullargspec and bound-method attribute forwarding are assumed (CPython); decorator chains of length <= 3 (bounded).",
         technique=TECH),
-    "C14": dict(category="other", design_ref="DESIGN.md section 5/C14",
+    "C14": dict(category="other", design_ref="DESIGN.md section 3 (C14), sections 5-6",
         text="Deductive for the ptera side (refstring/_extract_info/_build_refstring per placement, dict_resolver slash branch, _apply informs the registry before the swap, variant functions marked discard) and for codefind.CodeRegistry.update_cache_entry/find_code interpreted from the installed source; the history-level claim is decided by a bounded native stand-in (5 placements x histories of length 3/5).",
-        note=TRUST + "transform()'s exec / audit-hook interplay with codefind and gc.get_referrers are out of the verifier's reach: bounded native histories, labelled; one nested-function defect is a known finding, one defect was fixed.",
+        note=TRUST + "transform()'s exec / audit-hook interplay with codefind and gc.get_referrers are out of the verifier's reach: bounded native histories, labelled.",
         technique=TECH + "; bounded native history enumeration for the registry interplay"),
-    "C15": dict(category="other", design_ref="DESIGN.md section 5/C15",
-        text="Deductive: each documented equivalence is run through the REAL lexer, Parser.process and evaluation actions inside the verifier for every operand form of a small grammar (564 instances) and must yield the same object; interning proved for symbolic field values; whitespace invariance by a bounded native stand-in.",
+    "C15": dict(category="other", design_ref="DESIGN.md section 3 (C15), sections 5-6",
+        text="Deductive: each documented equivalence is run through the REAL lexer, Parser.process and evaluation actions inside the verifier for every operand form of a small grammar (about 950 instances) and must yield the same object; interning proved for symbolic field values; whitespace invariance by a bounded native stand-in.",
         note=TRUST + "operand grammar and nesting depth are bounded (labelled); operand names are concrete representatives; re.match executed natively.",
         technique=TECH + " on token skeletons; bounded operand grammar"),
-    "C16": dict(category="proof", design_ref="DESIGN.md section 5/C16",
-        text="Deductive: interact never returns/logs ABSENT and raises PteraNameError(varname, fn) exactly when the value after interception is the marker (any number of handlers); schema obligations: the marker only flows into the 4th argument of an interact call; externals prelude. Four genuine leaks/eager-fetch defects are known findings.",
+    "C16": dict(category="proof", design_ref="DESIGN.md section 3 (C16), sections 5-6",
+        text="Deductive: interact never returns/logs ABSENT and raises PteraNameError(varname, fn) exactly when the value after interception is the marker (any number of handlers); schema obligations: the marker only flows into the 4th argument of an interact call; externals prelude.",
         note=TRUST + "as C01 for the schema part.",
         technique=TECH),
-    "C18": dict(category="other", design_ref="DESIGN.md section 5/C18",
-        text="Deductive: every evaluation action for every combination of operand kinds in both contexts (over-approximating all parse trees) returns a selector/list or raises SyntaxError; Evaluator dispatch; _select/_guarantee_call; Call.problems/verify for any name; probe construction refusals. Lexer/Parser.process termination and error class: bounded native stand-in (all strings <= 3/4 symbols + seeded longer ones). 36+3 internal-error inputs were fixed.",
+    "C18": dict(category="other", design_ref="DESIGN.md section 3 (C18), sections 5-6",
+        text="Deductive: every evaluation action for every combination of operand kinds in both contexts (over-approximating all parse trees) returns a selector/list or raises SyntaxError; Evaluator dispatch; _select/_guarantee_call; Call.problems/verify for any name; probe construction refusals. Lexer/Parser.process termination and error class: bounded native stand-in (all strings <= 3/4 symbols + seeded longer ones).",
         note=TRUST + "lexer regexes and Parser.process on arbitrary token lists are only covered by the bounded native stand-in (labelled).",
         technique=TECH + "; bounded native string enumeration for lexer/parser"),
 }
 NOT_YET = {
 }
 NA = {
-    "C08": "Quantifies over thread schedules; sequential pre/postconditions and loop invariants cannot express or decide interleavings, and no thread-aware deductive rule for Python is available here (DESIGN.md section 6).",
+    "C08": "Quantifies over thread schedules; sequential pre/postconditions and loop invariants cannot express or decide interleavings, and no thread-aware deductive rule for Python is available here (DESIGN.md section 4).",
 }
 props = [json.loads(l)["id"] for l in open(os.path.join(ROOT, "properties.jsonl"))]
+_kf = json.load(open(os.path.join(ROOT, "known_findings.json")))
+
+
+def _suffix(pid):
+    n_known = len([f for f in _kf["findings"] if f["property"] == pid])
+    n_fixed = len([f for f in _kf["fixed"] if f"property={pid} " in f])
+    n_seeded = len([d for d in os.listdir(os.path.join(ROOT, "seeded")) if d.split("-")[0].rstrip("bcdefg") == pid])
+    return (f" Units labelled bounded, the native stand-ins and the scenario corpus (recorded scenarios and scenario oracles replayed natively on every run) are bounded checks and are not counted as proved."
+            f" On the current tree: {n_known} recorded known finding(s) (printed as KNOWN-FINDING, see known_findings.json), {n_fixed} defect(s) of this property repaired in /repo;"
+            f" {n_seeded} independently seeded property-breaking change(s) are all reported (canaries in the thorough tier).")
 checks = []
 for pid in props:
     if pid in CLAIMED:
@@ -91,7 +101,7 @@ for pid in props:
             "evidence_file": f"evidence/{pid}.json",
             "replay_cmd_template": "./check --replay {path}",
             "engine": "pvc",
-            "level_claimed": {"category": c["category"], "text": c["text"], "design_ref": c["design_ref"]},
+            "level_claimed": {"category": c["category"], "text": c["text"] + _suffix(pid), "design_ref": c["design_ref"]},
             "level_note": c["note"],
             "technique": c["technique"],
         })
@@ -112,7 +122,7 @@ m = {
     "engines": [{"name": "pvc", "path": "pvc/", "serves_properties": sorted(CLAIMED), "kind_free_text": "modular symbolic executor for a Python subset generating verification conditions from the real ptera source, discharged with z3 / cvc5"}],
     "checks": checks,
     "not_applicable": na,
-    "notes": "See DESIGN.md. known_findings.json lists genuine defects recorded or fixed.",
+    "notes": "See DESIGN.md. known_findings.json lists genuine defects recorded or fixed (43 unguarded fix: commits in /repo). BACKLOG.md lists agent-reported observations and their status.",
 }
 json.dump(m, open(os.path.join(ROOT, "MANIFEST.json"), "w"), indent=1)
 print("claimed", sorted(CLAIMED), "not claimed", [x["property_id"] for x in na])
